@@ -8,7 +8,9 @@ use std::sync::{Arc, Mutex};
 use tokio::io::{AsyncReadExt, AsyncWriteExt};
 
 #[derive(Clone, Copy, Debug, PartialEq)]
-enum Reply { Profile, NoContent, ServerError, NotJson }
+enum Reply { Profile, NoContent, ServerError, NotJson,
+    /// 200 with a JSON object that is no profile: `{}`, or an error document
+    EmptyObject, ErrorDoc }
 
 /// independent form decoding ('+' → space, %XX → byte)
 fn form_decode(s: &[u8]) -> Vec<u8> {
@@ -69,6 +71,8 @@ impl SessionMock {
                                 Reply::NoContent => "HTTP/1.1 204 No Content\r\ncontent-length: 0\r\n\r\n".to_string(),
                                 Reply::ServerError => "HTTP/1.1 500 Internal Server Error\r\ncontent-length: 0\r\n\r\n".to_string(),
                                 Reply::NotJson => "HTTP/1.1 200 OK\r\ncontent-type: text/plain\r\ncontent-length: 9\r\n\r\nnot json!".to_string(),
+                                Reply::EmptyObject => "HTTP/1.1 200 OK\r\ncontent-type: application/json\r\ncontent-length: 2\r\n\r\n{}".to_string(),
+                                Reply::ErrorDoc => { let b = r#"{"path":"/session/minecraft/hasJoined","errorMessage":"Service temporarily unavailable"}"#; format!("HTTP/1.1 200 OK\r\ncontent-type: application/json\r\ncontent-length: {}\r\n\r\n{}", b.len(), b) }
                             };
                             if sock.write_all(resp.as_bytes()).await.is_err() { return; }
                         }
@@ -107,7 +111,7 @@ pub fn config_id_cases(mock: &SessionMock, rng: &mut Rng) -> Vec<Case> {
     let mut cases = vec![];
     let dir = std::env::temp_dir().join(format!("pv-cfgid-{}", std::process::id()));
     std::fs::create_dir_all(&dir).unwrap();
-    for (i, id) in ["justchunks", "", "007", "1e3", "TRUE", "+5", "12.50", "0x10", "null", " 7 ", "1_000", "lobby-7"].iter().enumerate() {
+    for (i, id) in ["justchunks", "", "007", "1e3", "TRUE", "+5", "12.50", "0x10", "null", " 7 ", "1_000", "lobby-7", "exactly-twenty-chars", "twenty-one-characters", "network.example.org/minecraft/java/eu-1", "network.example.org/minecraft/java/eu-2"].iter().enumerate() {
         for via_file in [false, true] {
             // SAFETY: this runner is single-threaded apart from the mock server, which does not read the environment
             let cfg = if via_file {
@@ -214,7 +218,7 @@ pub fn run(a: &Args) {
         let secret = rng.bytes(16);
         let plen = rng.range(1, 170) as usize;
         let public = rng.bytes(plen);
-        let r = *rng.pick(&[Reply::Profile, Reply::Profile, Reply::NoContent, Reply::ServerError, Reply::NotJson]);
+        let r = *rng.pick(&[Reply::Profile, Reply::Profile, Reply::Profile, Reply::NoContent, Reply::ServerError, Reply::NotJson, Reply::EmptyObject, Reply::ErrorDoc]);
         *reply.lock().unwrap() = r;
         captured.lock().unwrap().clear();
         let adapter = MojangAdapter::default().with_server_id(server_id.clone());
